@@ -139,10 +139,17 @@ func (m *LoadBalancedManager) RemoveConn(u Upstream) {
 	if !ok {
 		return
 	}
+	registered := len(lb.upstreams)
 	if lb.Remove(u) {
 		delete(m.localUpstreams, u.EndpointID())
 
 		m.metrics.RegisteredEndpoints.Dec()
+	}
+	if len(lb.upstreams) == registered {
+		// The upstream was not registered, such as when it has already been
+		// removed (the proxy removes an upstream that sent go-away, then the
+		// upstream is removed again when its connection closes).
+		return
 	}
 
 	m.cluster.RemoveLocalEndpoint(u.EndpointID())
